@@ -221,3 +221,84 @@ Proof.
       change (pre ++ DOT :: DOT :: SEP :: join_elems (D ++ X)) with (pre ++ (DD ++ [SEP]) ++ join_elems (D ++ X)).
       rewrite <- ET. rewrite ET'. rewrite (IH (pre ++ DD ++ [SEP]) X junk f H2 HX ltac:(lia)). reflexivity.
 Qed.
+
+Lemma dd_join_len : forall A X, allDD A -> (2 * length A <= length (join_elems (A ++ X)))%nat.
+Proof.
+  induction A as [|a A IH]; intros X HA; [cbn; lia|].
+  inversion HA; subst. specialize (IH X H2). cbn [app]. destruct (A ++ X) as [|y Y] eqn:E.
+  - apply app_eq_nil in E as [-> _]. cbn. lia.
+  - change (join_elems (DD :: y :: Y)) with (DD ++ SEP :: join_elems (y :: Y)).
+    rewrite app_length. cbn [length DD] in *. lia.
+Qed.
+
+Lemma firstn_exact' : forall (A Bx : list Z) n, n = length A -> firstn n (A ++ Bx) = A.
+Proof. intros; subst. apply firstn_exact. Qed.
+
+Lemma skipn_exact : forall (A Bx : list Z) n, n = length A -> skipn n (A ++ Bx) = Bx.
+Proof. intros; subst. rewrite skipn_app, skipn_all, Nat.sub_diag. reflexivity. Qed.
+
+(* the early return of the third pass: the leading ".." fields are cut out, the tail rules skipped *)
+Lemma pass34_root_dd : forall d D X j junk, allDD (d :: D) ->
+  (X = [] \/ X = [[]] \/ exists n X', X = n :: X' /\ nm n /\ nonzero (join_elems X)) ->
+  Z.of_nat (length (SEP :: join_elems ((d :: D) ++ X)) + 2 + length junk) < W64 ->
+  exists bufF, pass34 1 (Z.of_nat (length (SEP :: join_elems ((d :: D) ++ X))))
+                      ((SEP :: join_elems ((d :: D) ++ X)) ++ 0 :: j :: junk) = Some bufF /\
+               cstr bufF = SEP :: join_elems X.
+Proof.
+  intros d D X j junk HD HX HW.
+  set (T := SEP :: join_elems ((d :: D) ++ X)) in *.
+  assert (EJ : exists mid, join_elems ((d :: D) ++ X) = mid ++ join_elems X /\ (2 <= length mid)%nat).
+  { inversion HD; subst. destruct HX as [-> | [-> | (n & X' & -> & _)]].
+    - exists (join_elems (DD :: D)). rewrite !app_nil_r. split; [reflexivity|].
+      pose proof (dd_join_len (DD :: D) [] HD) as L. rewrite app_nil_r in L. cbn [length] in L. lia.
+    - exists (body (DD :: D)). rewrite join_snoc. split; [reflexivity|]. rewrite body_length_cons. cbn. lia.
+    - exists (body (DD :: D)). rewrite join_app_body by discriminate. split; [reflexivity|]. rewrite body_length_cons. cbn. lia. }
+  destruct EJ as (mid & EJ & Hmid).
+  assert (ET : T = ([SEP] ++ mid) ++ join_elems X) by (unfold T; rewrite EJ; reflexivity).
+  set (st := length ([SEP] ++ mid)).
+  assert (Hst : (st + length (join_elems X) = length T)%nat) by (rewrite ET, app_length; reflexivity).
+  assert (Hst3 : (3 <= st)%nat) by (unfold st; rewrite app_length; cbn [length]; lia).
+  assert (Hscan : root_dotdot_scan (S (length (T ++ 0 :: j :: junk))) (T ++ 0 :: j :: junk) (Z.of_nat (length T)) 1
+                  = Some (Z.of_nat st)).
+  { pose proof (root_scan_D (d :: D) [SEP] X (j :: junk) (S (length (T ++ 0 :: j :: junk))) HD HX) as Q.
+    change ([SEP] ++ join_elems ((d :: D) ++ X)) with T in Q. change (Z.of_nat (length [SEP])) with 1 in Q.
+    rewrite Q.
+    - f_equal. f_equal. lia.
+    - pose proof (dd_join_len (d :: D) X HD) as L. rewrite app_length. unfold T. cbn [length] in *. lia. }
+  unfold pass34. change (negb (1 =? 0)) with true. cbn [andb].
+  assert (G0 : get (T ++ 0 :: j :: junk) (1 - 1) = SEP) by reflexivity.
+  rewrite G0. change (is_sep SEP) with true. cbv iota. rewrite Hscan.
+  replace (Z.of_nat st >? 1) with true by lia.
+  destruct (join_elems X) as [|c JX] eqn:EX.
+  - (* nothing left after the ".." fields *)
+    cbn [length] in Hst.
+    replace (Z.of_nat st <? Z.of_nat (length T)) with false by lia.
+    eexists. split; [reflexivity|].
+    destruct mid as [|m0 mid']; [cbn in Hmid; lia|].
+    rewrite ET. rewrite app_nil_r. cbn [app].
+    change (SEP :: m0 :: mid' ++ 0 :: j :: junk) with ([SEP] ++ m0 :: (mid' ++ 0 :: j :: junk)).
+    change 1 with (Z.of_nat (length [SEP])). rewrite set_mid. reflexivity.
+  - replace (Z.of_nat st <? Z.of_nat (length T)) with true by (cbn [length] in Hst; lia).
+    eexists. split; [reflexivity|].
+    assert (Esz1 : sz (Z.of_nat (length T) - Z.of_nat st) = Z.of_nat (length (c :: JX))).
+    { rewrite sz_small by lia. lia. }
+    assert (Esz2 : sz (sz (1 + Z.of_nat (length T)) - Z.of_nat st) = Z.of_nat (length ([SEP] ++ c :: JX))).
+    { rewrite (sz_small (1 + Z.of_nat (length T))) by lia. rewrite sz_small by (cbn [length app] in *; lia).
+      cbn [length app] in *. lia. }
+    rewrite Esz1, Esz2.
+    assert (Emm : exists x rest', memmove (T ++ 0 :: j :: junk) 1 (Z.of_nat st) (Z.of_nat (length (c :: JX)))
+                   = ([SEP] ++ c :: JX) ++ x :: rest').
+    { unfold memmove. rewrite !Nat2Z.id. change (Z.to_nat 1) with 1%nat.
+      assert (Esk : skipn st (T ++ 0 :: j :: junk) = (c :: JX) ++ 0 :: j :: junk).
+      { rewrite ET, <- app_assoc. apply skipn_exact. reflexivity. }
+      rewrite Esk, firstn_exact.
+      remember (skipn (1 + length (c :: JX)) (T ++ 0 :: j :: junk)) as rest eqn:Er.
+      assert (Lr : length rest = (length T + 2 + length junk - (1 + length (c :: JX)))%nat).
+      { rewrite Er, skipn_length, app_length. cbn [length]. lia. }
+      destruct rest as [|x rest']; [cbn [length] in *; lia|].
+      exists x, rest'. unfold T. cbn [app firstn]. reflexivity. }
+    destruct Emm as (x & rest' & ->). rewrite set_mid.
+    rewrite cstr_txt; [reflexivity|].
+    destruct HX as [-> | [-> | (n & X' & -> & _ & Hz)]]; [discriminate EX|discriminate EX|].
+    constructor; [discriminate|exact Hz].
+Qed.
